@@ -550,6 +550,7 @@ def setup(rep, tier):
     rep.minimum('R17.4', 3)
     rep.minimum('R17.6', 1)
     rep.minimum('R17.7', 4)
+    rep.minimum('R17.8', 6)
     if tier == 'thorough':
         rep.minimum('R17.5', 1)
     rep.trusted.append('python port of log2_frac (celt/cwrs.c) used as the generator oracle for the pulse cache; exact integer recurrence for U')
@@ -659,7 +660,54 @@ def r17_7(rep, prog):
     return n
 
 
+# ------------------------------------------------------------------ R17.8
+def r17_8(rep, prog):
+    """half-open interval convention of the PVQ index decoder: a vector with at least k pulses in the current dimension has
+    an index i with U(n,k) <= i, so every comparison between the running index and a table value in the index decoder
+    is the predicate `U <= i` or its negation (`q > i`, `i >= p`, `p <= i`, `i < q`).  `U < i` / `U >= i` differs from it
+    exactly when the index sits on a boundary, and sends that index to the neighbouring vector."""
+    n = 0
+    for f in prog.functions_all:
+        if f.file != 'celt/cwrs.c':
+            continue
+        idx = [k for k, q in enumerate(f.params) if 'uint32' in q.get('type', '') and '*' not in q.get('type', '')]
+        if not idx:
+            continue
+        if not any(q.get('type', '').replace(' ', '') in ('int*',) for q in f.params):
+            continue                       # the decoder writes pulses through an int* output
+        for k in idx:
+            pk = ('param', k)
+            seen = set()
+            for x in f.all_nodes():
+                if sx.kind(x) != 'bin' or x[1] not in ('<', '<=', '>', '>='):
+                    continue
+                a, b = sx.strip(x[2]), sx.strip(x[3])
+                if sx.key(a) == pk and sx.int_val(b) is None:
+                    op = x[1]                                   # i OP tbl
+                    ok = op in ('>=', '<')                      # i >= U  /  i < U
+                elif sx.key(b) == pk and sx.int_val(a) is None:
+                    op = x[1]                                   # tbl OP i
+                    ok = op in ('<=', '>')                      # U <= i  /  U > i
+                else:
+                    continue
+                txt = sx.show(x)
+                if txt in seen:
+                    continue
+                seen.add(txt)
+                n += 1
+                rep.functions.add(f.name)
+                inst = '%s:%s compares the index with a table value as `U <= i` or its negation: `%s`' % (prog.config, f.name, txt[:30])
+                where = '%s:%s' % (f.file, sx.line(x) or f.line)
+                if ok:
+                    rep.holds('R17.8', inst, where, None)
+                else:
+                    rep.violated('R17.8', inst, where, 'this comparison differs from the half-open convention exactly when the index equals the table value: that index decodes to the neighbouring pulse vector, while the encoder (icwrs) still assigns it to the other one',
+                                 key='%s:boundary:%s' % (f.name, txt[:24].replace(' ', '')))
+    return n
+
+
 def check(rep, prog, tier):
+    r17_8(rep, prog)
     r17_7(rep, prog)
     r17_6(rep, prog)
     pt = PointsTo(prog)
